@@ -20,7 +20,7 @@ def ensure_installed():
     if not _INSTALLED:
         import lazy_dataset.parallel_utils as pu
         import lazy_dataset.core as core
-        S.install(pu, extra_roots=(core.PrefetchDataset, core.ParMapDataset))
+        S.install(pu, extra_roots=(core,))
         _wrap_cache(core)
         _INSTALLED = True
     return S.MONITOR
@@ -103,6 +103,14 @@ class Tap:
         return x + self.add
 
 
+def _plus1000(x):
+    return x + 1000
+
+
+def _neg(x):
+    return -x
+
+
 def normalise_fail(fail):
     return {int(k): v for k, v in (fail or {}).items()}
 
@@ -144,6 +152,8 @@ class Harness:
             ds = self._stage(ds, stage)
         if cfg.get('profile'):
             ds = lazy_dataset.core.ProfilingDataset(ds)
+        if cfg.get('copy_first'):
+            ds = ds.copy()
         self.ds = ds
         self.rounds = []          # per consumer round: {'delivered': [...], 'exc': name|None}
 
@@ -153,6 +163,20 @@ class Harness:
             return ds.tile(2)
         if stage == 'cache':
             return ds.cache()
+        if stage == 'concat_map':
+            return ds.concatenate(ds.map(_plus1000))
+        if stage == 'slice_rev':
+            return ds[::-1]
+        if stage == 'sort':
+            return ds.sort(_neg)
+        if stage == 'intersperse_map':
+            return ds.intersperse(ds.map(_plus1000))
+        if stage == 'zip_map':
+            return ds.zip(ds.map(_plus1000))
+        if stage == 'key_zip_map':
+            return ds.key_zip(ds.map(_plus1000))
+        if stage == 'items':
+            return ds.items()
         if stage[0] == 'batch':
             return ds.batch(stage[1])
         raise ValueError(stage)
@@ -228,30 +252,138 @@ def _val(x):
 
 class Execution:
     __slots__ = ('choices', 'points', 'log', 'trace', 'error', 'pruned', 'rounds', 'steps', 'thread_excs',
-                 'max_q')
+                 'max_q', 'steps_rec', 'spawned_at')
 
     def key(self):
         return json.dumps([self.rounds, type(self.error).__name__ if self.error else None], sort_keys=True)
 
 
-def run_one(cfg, prefix, mode='P'):
+def run_one(cfg, prefix, mode='P', sleep_after=None):
     mon = ensure_installed()
     mon.set_mode('L' if mode == 'L' else 'P')       # mode 'B': visible operations, preemption bounded, no sleep sets
     S.PATHOS_STATE.clear()
     h = Harness(cfg)
-    sch = S.Sched(prefix, use_sleep=(mode == 'P'), horizon=cfg.get('horizon', S.HORIZON))
+    if mode == 'D':
+        sch = S.Sched(horizon=cfg.get('horizon', S.HORIZON), forced=prefix, sleep_after=sleep_after)
+    else:
+        sch = S.Sched(prefix, use_sleep=(mode == 'P'), horizon=cfg.get('horizon', S.HORIZON))
     sch.sync_events = frozenset(cfg.get('sync_events', ()))
     sch.log_points = frozenset(cfg.get('log_points', ()))
     sch.run(h.main)
     ex = Execution()
     ex.points, ex.log, ex.trace, ex.error, ex.pruned = sch.points, sch.log, sch.trace, sch.error, sch.pruned
-    ex.choices = [p[1] for p in sch.points]
+    ex.choices = [p[1] for p in sch.points] if mode != 'D' else [r[1] for r in sch.steps_rec]
+    ex.steps_rec, ex.spawned_at = sch.steps_rec, sch.spawned_at
     ex.rounds, ex.steps = h.rounds, sch.steps
     ex.thread_excs = [(t.name, type(t.exc).__name__) for t in sch.threads if t.exc is not None]
     return ex
 
 
+def _races(nodes, spawned_at):
+    """Flanagan-Godefroid race detection on an executed trace: for every event j the latest earlier event i of
+    another thread that is dependent with it and does not happen-before the executing thread's previous event.
+    Yields (i, tid_j).  Happens-before = program order + spawn + join + dependence, via vector clocks."""
+    n = len(nodes)
+    clocks = []                 # clock after event k: dict tid -> index+1 of the latest event of tid it depends on
+    last_of = {}                # tid -> index of its latest event so far
+    for j in range(n):
+        tj = nodes[j]['chosen']
+        lj = nodes[j]['enabled'][tj]
+        base = {}
+        if tj in last_of:
+            base = dict(clocks[last_of[tj]])
+        else:
+            sp = spawned_at.get(tj, -1)
+            if 0 <= sp < j:
+                base = dict(clocks[sp])
+        if lj is not None and lj[0] == 'thr' and lj[1] != tj and lj[1] in last_of:      # join: after all of that thread
+            for k, v in clocks[last_of[lj[1]]].items():
+                base[k] = max(base.get(k, 0), v)
+        race = None
+        c = dict(base)
+        for i in range(j - 1, -1, -1):
+            ti = nodes[i]['chosen']
+            if ti == tj:
+                continue
+            li = nodes[i]['enabled'][ti]
+            if not S.dependent(li, lj):
+                continue
+            if base.get(ti, 0) >= i + 1:
+                continue        # i already happens-before this thread's previous event
+            if race is None:
+                race = i
+            for k, v in clocks[i].items():
+                c[k] = max(c.get(k, 0), v)
+        c[tj] = j + 1
+        clocks.append(c)
+        last_of[tj] = j
+        if race is not None:
+            yield race, tj
+
+
+def explore_dpor(cfg, oracle, cap=200000):
+    """Mode 'D': dynamic partial-order reduction (Flanagan & Godefroid) combined with sleep sets, stateless with
+    replay.  Every Mazurkiewicz trace of the visible operations is executed at least once; backtrack points are
+    only added where a race between dependent operations was actually observed."""
+    st = collections.Counter()
+    outcomes = collections.Counter()
+    logs = set()
+    viols = {}
+    nodes = []
+    while True:
+        if st['executions'] >= cap:
+            st['capped'] = 1
+            break
+        forced = [nd['chosen'] for nd in nodes]
+        sleep_after = nodes[-1].get('child_sleep', {}) if nodes else {}
+        ex = run_one(cfg, forced, 'D', sleep_after)
+        st['executions'] += 1
+        st['steps'] += ex.steps
+        if isinstance(ex.error, S.ReplayDivergence):
+            raise common.HarnessError(f'replay divergence in {cfg}: {ex.error}')
+        for en_map, tid, sleep in ex.steps_rec[len(nodes):]:
+            nodes.append({'enabled': en_map, 'chosen': tid, 'backtrack': {tid}, 'done': {tid}, 'sleep': sleep})
+        del nodes[len(ex.steps_rec):]
+        if ex.pruned:
+            st['pruned'] += 1
+        else:
+            st['complete'] += 1
+            outcomes[ex.key()] += 1
+            logs.add(hash(repr(ex.log)))
+            for kind, detail in oracle(cfg, ex):
+                if kind not in viols:
+                    viols[kind] = {'kind': kind, 'detail': detail, 'choices': list(ex.choices), 'mode': 'D'}
+        for i, tid in _races(nodes, ex.spawned_at):
+            nd = nodes[i]
+            if tid in nd['enabled']:
+                nd['backtrack'].add(tid)
+            else:
+                nd['backtrack'].update(nd['enabled'])
+        while nodes:
+            nd = nodes[-1]
+            cand = sorted(t for t in nd['backtrack'] if t not in nd['done'] and t not in nd['sleep'])
+            if cand:
+                t = cand[0]
+                sl = dict(nd['sleep'])
+                for q in nd['done']:
+                    if q in nd['enabled']:
+                        sl[q] = nd['enabled'][q]
+                lt = nd['enabled'][t]
+                nd['child_sleep'] = {q: lab for q, lab in sl.items() if q != t and not S.dependent(lab, lt)}
+                nd['done'].add(t)
+                nd['chosen'] = t
+                break
+            nodes.pop()
+        else:
+            break
+    st['distinct_outcomes'] = len(outcomes)
+    st['distinct_logs'] = len(logs)
+    return st, list(viols.values()), outcomes
+
+
 def explore(cfg, oracle, mode='P', bound=None, cap=200000):
+    if mode == 'D':
+        return explore_dpor(cfg, oracle, cap)
     """Depth-first over choice lists.  `oracle(cfg, execution)` returns a list of (kind, detail).
     Returns a stats dict and a list of violation dicts (kind, detail, choices)."""
     stack = [[]]
